@@ -34,7 +34,7 @@ theorem fill_cases (f : Nat → Option Id) (n : Nat) :
 theorem requests_nonzero (esz ealign n : Nat) (f : Nat → Option Id) (allocOk : Bool) :
     requestsNonzero (boxedGenerate esz ealign n f allocOk).atrace = true := by
   unfold boxedGenerate
-  simp only [noAlloc_iff, boxedNullChecked_eq, boxedDeallocGuard_eq, boxedWriteBeforeCount_eq]
+  simp only [noAlloc_iff, boxedNullChecked_eq, boxedDeallocGuard_eq, boxedWriteBeforeCount_eq, GA.Bridge.HeapGen.boxedDanglingAligned_eq]
   by_cases hz : n * esz = 0
   · simp only [hz, decide_true, Bool.not_true, Bool.false_and, Bool.false_eq_true, if_false, if_true]
     rcases fill_cases f n with ⟨tr, out, s, h⟩ | ⟨tr, h⟩ <;> simp [h, requestsNonzero]
@@ -48,7 +48,7 @@ theorem requests_nonzero (esz ealign n : Nat) (f : Nat → Option Id) (allocOk :
 theorem release_matches (esz ealign n : Nat) (f : Nat → Option Id) (allocOk : Bool) :
     releasesMatch (boxedGenerate esz ealign n f allocOk).atrace = true := by
   unfold boxedGenerate
-  simp only [noAlloc_iff, boxedNullChecked_eq, boxedDeallocGuard_eq, boxedWriteBeforeCount_eq]
+  simp only [noAlloc_iff, boxedNullChecked_eq, boxedDeallocGuard_eq, boxedWriteBeforeCount_eq, GA.Bridge.HeapGen.boxedDanglingAligned_eq]
   by_cases hz : n * esz = 0
   · simp only [hz, decide_true, Bool.not_true, Bool.false_and, Bool.false_eq_true, if_false, if_true]
     rcases fill_cases f n with ⟨tr, out, s, h⟩ | ⟨tr, h⟩ <;> simp [h, releasesMatch]
@@ -62,7 +62,7 @@ theorem release_matches (esz ealign n : Nat) (f : Nat → Option Id) (allocOk : 
 theorem no_leak (esz ealign n : Nat) (f : Nat → Option Id) (allocOk : Bool) :
     liveAfter (boxedGenerate esz ealign n f allocOk).atrace = [] := by
   unfold boxedGenerate
-  simp only [noAlloc_iff, boxedNullChecked_eq, boxedDeallocGuard_eq, boxedWriteBeforeCount_eq]
+  simp only [noAlloc_iff, boxedNullChecked_eq, boxedDeallocGuard_eq, boxedWriteBeforeCount_eq, GA.Bridge.HeapGen.boxedDanglingAligned_eq]
   by_cases hz : n * esz = 0
   · simp only [hz, decide_true, Bool.not_true, Bool.false_and, Bool.false_eq_true, if_false, if_true]
     rcases fill_cases f n with ⟨tr, out, s, h⟩ | ⟨tr, h⟩ <;> simp [h, liveAfter]
@@ -79,11 +79,27 @@ theorem alloc_failure_path (esz ealign n : Nat) (f : Nat → Option Id) (hz : n 
   unfold boxedGenerate
   simp [noAlloc_iff, boxedNullChecked_eq, hz]
 
+/-- **no undefined behaviour on any path**: the null block is never used, the fill loop never leaves
+    a hole, and the pointer standing in for a zero-size block is aligned for the array (so the
+    `&mut` formed on it and the returned `Box` are valid for every alignment — C01's `N = 0` and
+    zero-sized-element cases on the heap) -/
+theorem boxed_no_ub (esz ealign n : Nat) (f : Nat → Option Id) (allocOk : Bool) :
+    (boxedGenerate esz ealign n f allocOk).res ≠ .ub := by
+  unfold boxedGenerate
+  simp only [noAlloc_iff, boxedNullChecked_eq, boxedDeallocGuard_eq, boxedWriteBeforeCount_eq, boxedDanglingAligned_eq]
+  by_cases hz : n * esz = 0
+  · simp only [hz, decide_true, Bool.not_true, Bool.false_and, Bool.and_false, Bool.false_eq_true, if_false, if_true]
+    rcases fill_cases f n with ⟨tr, out, s, h⟩ | ⟨tr, h⟩ <;> simp [h]
+  · cases allocOk
+    · simp [hz]
+    · simp only [hz, decide_false, Bool.not_false, Bool.not_true, Bool.and_false, Bool.false_and, Bool.false_eq_true, if_false, if_true]
+      rcases fill_cases f n with ⟨tr, out, s, h⟩ | ⟨tr, h⟩ <;> simp [h]
+
 /-- the elements themselves obey the C04 ledger (same fill loop) and a returned box is complete -/
 theorem boxed_complete (esz ealign n : Nat) (f : Nat → Option Id) (arr : List Id)
     (h : (boxedGenerate esz ealign n f true).res = .ok arr) : arr.length = n := by
   unfold boxedGenerate at h
-  simp only [noAlloc_iff, boxedWriteBeforeCount_eq] at h
+  simp only [noAlloc_iff, boxedWriteBeforeCount_eq, GA.Bridge.HeapGen.boxedDanglingAligned_eq] at h
   have hl := fillLoop_len true (genSrc f) n 0 []
   rcases fill_cases f n with ⟨tr, out, s, hf⟩ | ⟨tr, hf⟩
   · rw [hf] at hl; simp only [List.length_nil, Nat.zero_add] at hl
@@ -98,9 +114,9 @@ example : requestsNonzero [AEv.alloc 1 (0 * 4) 4] = false := by decide
 example : liveAfter [AEv.alloc 1 32 4] ≠ [] := by decide
 -- non-vacuity: a successful run, a panicking run, a zero-sized element run
 example : (boxedGenerate 4 4 3 (fun i => some (100 + i)) true).atrace = [.alloc 1 12 4, .dealloc 1 12 4] := by
-  unfold boxedGenerate; simp [noAlloc_iff, boxedNullChecked_eq, boxedDeallocGuard_eq, boxedWriteBeforeCount_eq]; decide
+  unfold boxedGenerate; simp [noAlloc_iff, boxedNullChecked_eq, boxedDeallocGuard_eq, boxedWriteBeforeCount_eq, GA.Bridge.HeapGen.boxedDanglingAligned_eq]; decide
 example : (boxedGenerate 0 1 5 (fun i => some i) true).atrace = [] := by
-  unfold boxedGenerate; simp [noAlloc_iff, boxedWriteBeforeCount_eq]; decide
+  unfold boxedGenerate; simp [noAlloc_iff, boxedWriteBeforeCount_eq, GA.Bridge.HeapGen.boxedDanglingAligned_eq]; decide
 
 end GA.Props.C16
 
@@ -108,4 +124,5 @@ end GA.Props.C16
 #print axioms GA.Props.C16.release_matches
 #print axioms GA.Props.C16.no_leak
 #print axioms GA.Props.C16.alloc_failure_path
+#print axioms GA.Props.C16.boxed_no_ub
 #print axioms GA.Props.C16.boxed_complete
